@@ -62,7 +62,7 @@ def run_checks(d, checks):
     env = env_of(d)
     b = sh(f"cd {d}/sim && cargo build --release --offline 2>&1 | tail -5", env)
     if not os.path.exists(f"{d}/target/release/sim") or "error" in b.stdout:
-        return {c: (2, [], "build failed: " + b.stdout[-300:]) for c in checks}
+        return {c: (2, [], "build failed: " + b.stdout[-300:], -1) for c in checks}
     if "C20" in checks:
         sh(f"cd {d}/repo && CARGO_TARGET_DIR={d}/target-dis cargo build -p rspirv-dis --release --offline 2>&1 | tail -3", env)
     out = {}
@@ -73,7 +73,9 @@ def run_checks(d, checks):
         shutil.copytree(os.path.join(ROOT, "regress"), f"{d}/root/regress")
         r = sh(f"cd {d} && {d}/target/release/sim {c} quick", env)
         clauses = [l.strip() for l in r.stdout.splitlines() if l.strip().startswith("clause=")]
-        out[c] = (r.returncode, clauses[:3], r.stdout[-300:] if r.returncode not in (0, 1) else "")
+        import re
+        m = re.search(r"violating_runs=(\d+)", r.stdout)
+        out[c] = (r.returncode, clauses[:3], r.stdout[-300:] if r.returncode not in (0, 1) else "", int(m.group(1)) if m else -1)
         if r.returncode == 1:
             break
     return out
@@ -102,7 +104,7 @@ def worker(w, jobs, results, lock):
         res["secs"] = round(time.time() - t0, 1)
         with lock:
             results[name] = res
-            exits = {c: v[0] for c, v in res.get("checks", {}).items()}
+            exits = {c: (v[0], v[3]) for c, v in res.get("checks", {}).items()}
             print(name, res.get("error", ""), res.get("repo_tests", ""), exits, flush=True)
     sh(f"git -C {REPO} worktree remove --force {d}/repo; rm -rf {d}")
 
@@ -118,7 +120,7 @@ def main():
         res = run_checks(d, sel[1:])
         sh(f"git -C {d}/repo checkout -- . && git -C {d}/repo clean -fdq")
         for c, v in res.items():
-            print(c, "exit", v[0], v[1][:2], v[2])
+            print(c, "exit", v[0], "violating_runs", v[3], v[1][:2], v[2])
         return
     if mode == "patch-clean":
         for n in ("adhoc", os.environ.get("VPAR_ADHOC", "adhoc")):
@@ -163,7 +165,7 @@ def main():
     if mode == "seeded":
         lines = ["# Seeded changes (independent sub-agents, property text only) vs. the checks", "",
                  "Each change compiles, passes the repository's 82 tests and comes with a demonstration that fails with it and passes without it (confirmed when it was kept, see meta.json). Verdicts below are from `scripts/par_eval.py seeded` (scratch copies of /repo and the simulator; /repo itself untouched).", "",
-                 "| change | property | quick check | first clause reported | what it needs to manifest |", "|---|---|---|---|---|"]
+                 "| change | property | quick check | violating runs in the batch | first clause reported | what it needs to manifest |", "|---|---|---|---|---|---|"]
         for d in order:
             res = results.get(d, {})
             meta = json.load(open(os.path.join(ROOT, "seeded", d, "meta.json")))
@@ -173,11 +175,13 @@ def main():
             if hit:
                 verdict, clause = "detected", (hit[1][1][0] if hit[1][1] else "")
                 pcol = prop if hit[0] == prop else f"{prop} (caught by {hit[0]})"
+                nviol = hit[1][3]
             else:
                 verdict, clause, pcol = "MISSED " + json.dumps({c: v[0] for c, v in chk.items()}) + res.get("error", ""), "", prop
-            lines.append(f"| {d} | {pcol} | {verdict} | {clause[:120]} | {meta.get('needs_to_manifest','')[:220]}{' — ' + meta['history'] if 'history' in meta else ''} |")
+                nviol = 0
+            lines.append(f"| {d} | {pcol} | {verdict} | {nviol} | {clause[:120]} | {meta.get('needs_to_manifest','')[:220]}{' — ' + meta['history'] if 'history' in meta else ''} |")
             if not os.environ.get("VPAR_VERIF_REV"):
-                meta["last_rerun"] = {"verdict": verdict, "clause": clause}
+                meta["last_rerun"] = {"verdict": verdict, "clause": clause, "violating_runs": nviol}
                 json.dump(meta, open(os.path.join(ROOT, "seeded", d, "meta.json"), "w"), indent=1)
         if not sel and not os.environ.get("VPAR_VERIF_REV"):
             open(os.path.join(ROOT, "seeded", "RESULTS.md"), "w").write("\n".join(lines) + "\n")
